@@ -180,3 +180,54 @@ class LiveTransactionMonitor(TransactionMonitor):
             self.res.probes["c18.live.count_added_while_other_call_in_flight"] += 1
             self.res.nontrivial = True
         self._compare("add_transaction")
+
+
+class LiveClientCounts(Monitor):
+    """World B, several clients on one execution object: at the end of the session every client is charged exactly what
+    ITS OWN answered calls submitted (placement and replacement instructions) plus the failed instructions reported to it
+    (own reference: the API calls seen at the transport seam, attributed through the package being executed on that thread)."""
+
+    P = "C18"
+
+    def __init__(self, run):
+        super().__init__(run)
+        self.cur = {}  # thread id -> package being executed
+        self.calls = {}  # n -> (client, method, request, plan)
+        self.applied = {}
+
+    def on_exec_before(self, pkg):
+        import threading
+
+        self.cur[threading.get_ident()] = pkg
+
+    def on_api_call(self, n, method, request, plan):
+        import threading
+
+        pkg = self.cur.get(threading.get_ident())
+        if pkg is not None:
+            self.calls[n] = (pkg.client, method, request, plan)
+
+    def on_api_applied(self, n, method, request, response):
+        self.applied[n] = response
+
+    def on_quiescent(self, kind):
+        if kind != "final" or len(self.run.clients) < 2:
+            return
+        for client in self.run.clients:
+            want = 0
+            for n, (c, method, request, plan) in self.calls.items():
+                resp = self.applied.get(n)
+                if c is not client or resp is None or plan.get("transport"):
+                    continue
+                reps = resp["result"]["instructionReports"]
+                if method == "placeOrders":
+                    want += len(request["params"]["instructions"])
+                elif method == "replaceOrders":
+                    want += len(request["params"]["instructions"])
+                    want += sum(1 for r in reps if r["cancelInstructionReport"]["status"] == "FAILURE")
+                else:
+                    want += sum(1 for r in reps if r["status"] == "FAILURE")
+            got = client.transaction_count_total
+            self.res.probes["c18.live.client_charge_compared_with_its_own_calls"] += 1
+            if got != want:
+                self.violate(self.P, "C18.isolation", "client-charged-differs-from-its-own-calls", client=client.username, charged=got, own_calls=want, clients=len(self.run.clients))
